@@ -342,6 +342,215 @@ def _step_stmt(st, env):
         env[pl[0]] = v
 
 
+def _tuple_elems(ty):
+    """element types of a tuple type string "(A, B<C, D>, E)" (top-level commas), or None"""
+    ty = ty.strip()
+    if not (ty.startswith("(") and ty.endswith(")")) or ty == "()":
+        return None
+    inner, out, depth, cur = ty[1:-1], [], 0, ""
+    for ch in inner:
+        if ch in "<([":
+            depth += 1
+        elif ch in ">)]":
+            depth -= 1
+        if ch == "," and depth == 0:
+            out.append(cur.strip())
+            cur = ""
+        else:
+            cur += ch
+    if cur.strip():
+        out.append(cur.strip())
+    return out or None
+
+
+def split_tuples(B):
+    """Scalar replacement of the tuple temporaries that splicing a helper leaves behind: a local that is only ever built whole
+    (`t = (a, b)` or `t = move t2` of another such local) and read field by field becomes one local per field.  `let (n, cut) =
+    helper(..)` then reads, after inlining, like the straight-line code the helper was extracted from: `n = count; cut = true`."""
+    cand = {}
+    for l, d in enumerate(B.locals):
+        if l == 0 or l <= B.arg_count:
+            continue
+        el = _tuple_elems(d.get("ty", ""))
+        if el:
+            cand[l] = el
+    if not cand:
+        return 0
+    bad = set()
+    whole_copies = []      # (dst, src)
+
+    def see_place(pl, as_def_of_whole=False):
+        l = pl[0]
+        if l not in cand:
+            # an index projection may mention a candidate: never for tuples
+            return
+        if len(pl) == 1:
+            if not as_def_of_whole:
+                bad.add(l)
+        elif len(pl) == 2 and isinstance(pl[1], str) and re.match(r"\.\d+$", pl[1]):
+            pass
+        else:
+            bad.add(l)
+
+    def see_op(o):
+        pl = o.get("c") or o.get("m")
+        if pl is not None:
+            see_place(pl)
+    for blk in B.blocks:
+        for st in blk["stmts"]:
+            rv = st.get("rv")
+            p_ = st["p"]
+            if rv is None:
+                see_place(p_)
+                continue
+            whole_def = len(p_) == 1 and p_[0] in cand
+            if whole_def and rv["k"] == "agg" and rv.get("akind") == "tuple" and len(rv["ops"]) == len(cand[p_[0]]):
+                for o in rv["ops"]:
+                    see_op(o)
+                continue
+            src = (rv["op"].get("c") or rv["op"].get("m")) if rv["k"] == "use" else None
+            if whole_def and src is not None and len(src) == 1 and src[0] in cand and len(cand[src[0]]) == len(cand[p_[0]]):
+                whole_copies.append((p_[0], src[0]))
+                continue
+            see_place(p_, as_def_of_whole=False)
+            k = rv["k"]
+            if k in ("use", "repeat", "cast"):
+                see_op(rv["op"])
+            elif k in ("ref", "rawptr", "discr"):
+                if rv["place"][0] in cand:
+                    bad.add(rv["place"][0])
+            elif k == "bin":
+                see_op(rv["a"]); see_op(rv["b"])
+            elif k == "un":
+                see_op(rv["a"])
+            elif k == "agg":
+                for o in rv["ops"]:
+                    see_op(o)
+        t = blk["term"]
+        if t is None:
+            continue
+        k = t["k"]
+        if k == "call":
+            if t["dest"][0] in cand:
+                bad.add(t["dest"][0])
+            for a in t["args"]:
+                see_op(a)
+            if t["callee"].get("ptr") is not None:
+                see_op(t["callee"]["ptr"])
+        elif k == "switch":
+            see_op(t["discr"])
+        elif k == "assert":
+            see_op(t["cond"])
+            for a in t["ops"]:
+                see_op(a)
+        elif k == "drop":
+            if t["place"][0] in cand:
+                bad.add(t["place"][0])
+        elif k == "yield":
+            see_op(t["value"])
+            if t["resume_arg"][0] in cand:
+                bad.add(t["resume_arg"][0])
+    for v in B.vars:
+        if "place" in v and v["place"][0] in cand and len(v["place"]) != 1:
+            bad.add(v["place"][0])
+    changed = True
+    while changed:
+        changed = False
+        for d, s_ in whole_copies:
+            if (d in bad) != (s_ in bad):
+                bad.add(d); bad.add(s_)
+                changed = True
+    # only worth doing (and only exercised) on locals that have a whole definition
+    defined = set()
+    for blk in B.blocks:
+        for st in blk["stmts"]:
+            if len(st["p"]) == 1 and st["p"][0] in cand and st.get("rv") is not None:
+                defined.add(st["p"][0])
+    todo = {l: el for l, el in cand.items() if l not in bad and l in defined}
+    if not todo:
+        return 0
+    newl = {}
+    for l, el in todo.items():
+        for i, ty in enumerate(el):
+            newl[(l, i)] = len(B.locals)
+            B.locals.append({"ty": ty, "mut": True})
+
+    def mp(pl):
+        if pl[0] in todo and len(pl) == 2:
+            return (newl[(pl[0], int(pl[1][1:]))],)
+        return pl
+
+    def mo(o):
+        if "c" in o:
+            return {"c": mp(o["c"])}
+        if "m" in o:
+            return {"m": mp(o["m"])}
+        return o
+    for blk in B.blocks:
+        out = []
+        for st in blk["stmts"]:
+            rv = st.get("rv")
+            p_ = st["p"]
+            if rv is not None and len(p_) == 1 and p_[0] in todo:
+                if rv["k"] == "agg":
+                    for i, o in enumerate(rv["ops"]):
+                        ns = {k_: v_ for k_, v_ in st.items() if k_ not in ("p", "rv")}
+                        ns["p"] = (newl[(p_[0], i)],)
+                        ns["rv"] = {"k": "use", "op": mo(o)}
+                        out.append(ns)
+                else:
+                    src = rv["op"].get("c") or rv["op"].get("m")
+                    key = "c" if "c" in rv["op"] else "m"
+                    for i in range(len(todo[p_[0]])):
+                        ns = {k_: v_ for k_, v_ in st.items() if k_ not in ("p", "rv")}
+                        ns["p"] = (newl[(p_[0], i)],)
+                        ns["rv"] = {"k": "use", "op": {key: (newl[(src[0], i)],)}}
+                        out.append(ns)
+                continue
+            if rv is None:
+                if p_[0] in todo:
+                    continue        # storage markers of the split local
+                out.append(st)
+                continue
+            ns = dict(st)
+            ns["p"] = mp(p_)
+            r2 = dict(rv)
+            k = rv["k"]
+            if k in ("use", "repeat", "cast"):
+                r2["op"] = mo(rv["op"])
+            elif k == "bin":
+                r2["a"], r2["b"] = mo(rv["a"]), mo(rv["b"])
+            elif k == "un":
+                r2["a"] = mo(rv["a"])
+            elif k == "agg":
+                r2["ops"] = [mo(o) for o in rv["ops"]]
+            ns["rv"] = r2
+            out.append(ns)
+        blk["stmts"] = out
+        t = blk["term"]
+        if t is None:
+            continue
+        t = dict(t)
+        k = t["k"]
+        if k == "call":
+            t["args"] = [mo(a) for a in t["args"]]
+            t["dest"] = mp(tuple(t["dest"]))
+            if t["callee"].get("ptr") is not None:
+                c = dict(t["callee"]); c["ptr"] = mo(c["ptr"]); t["callee"] = c
+        elif k == "switch":
+            t["discr"] = mo(t["discr"])
+        elif k == "assert":
+            t["cond"] = mo(t["cond"])
+            t["ops"] = [mo(a) for a in t["ops"]]
+        elif k == "yield":
+            t["value"] = mo(t["value"])
+        blk["term"] = t
+    B._names = None
+    B._cfg = None
+    B._defs = None
+    return len(todo)
+
+
 def thread_jumps(B, max_threads=40):
     """Constant jump threading, so that inlining a helper that returns a constant (or a constant-tagged value) on each of its paths
     restores the dominance facts of the un-extracted code: when a block assigns a known value to a local and the blocks that
@@ -578,6 +787,10 @@ def inline_program(P):
         for fid in list(bodies):
             if fid not in changed and len(bodies[fid].blocks) < 900:
                 changed[fid] = _clone_body(bodies[fid])
+    for fid, B in changed.items():
+        k = split_tuples(B)
+        if k:
+            log.append("%s: %d tuple temporar%s split into fields" % (fid, k, "y" if k == 1 else "ies"))
     for fid, B in changed.items():
         n = 0
         for _ in range(3):
